@@ -17,12 +17,13 @@ RAW_PROPS = ("FailedOpIsNoOp", "GetReturnsThePut", "HeadersPreserved", "RecordsI
 RAW_ACTIONS = ("NewX", "New", "Reopen", "Close", "Pickle", "Put", "Get")
 
 
-def raw_cfg(tier, dev="DevNone"):
-    big = tier == "thorough"
+def raw_cfg(tier, dev="DevNone", keys=None, vals=None, handles=None):
+    keys = keys or "KeysQ"
+    vals = vals or "ValsQ"
+    handles = handles or "H2"
     return dict(spec="Spec", constants={
-        "Key": "<- KeysT" if big else "<- KeysQ", "Val": "<- ValsT" if big else "<- ValsQ",
-        "KeyLen": "<- KLen", "ValLen": "<- VLen", "Handle": "<- H3" if big else "<- H2", "Hdr": "<- HdrQ",
-        "NoHdr": '"none"', "HdrLen": "<- HL", "MaxRecs": 3, "Deviations": f"<- {dev}"},
+        "Key": f"<- {keys}", "Val": f"<- {vals}", "KeyLen": "<- KLen", "ValLen": "<- VLen", "Handle": f"<- {handles}",
+        "Hdr": "<- HdrQ", "NoHdr": '"none"', "HdrLen": "<- HL", "MaxRecs": 3, "Deviations": f"<- {dev}"},
         invariants=RAW_INV, properties=RAW_PROPS, view="View")
 
 
@@ -38,25 +39,30 @@ def norm_obs(o):
 
 
 def raw_layer(tier, seed, ev, rep):
-    cfg = raw_cfg(tier)
-    model_check(ev, "MCUKVFile", cfg, role="UKVFile invariants + refinement of KVMap", tag="c02raw",
-                require_actions=RAW_ACTIONS)
     for dev, inv in (("DevPhantom", "TocSound"), ("DevStale", "TocComplete")):
         expect_violation("MCUKVFile", raw_cfg("quick", dev), (inv,), tag="c02dev")
-    edges = emit_graph(ev, "MCUKVFile", cfg, role="UKVFile edges for replay", tag="c02emit")
-    for e in edges:
-        e["obs"] = norm_obs(e["obs"])
-    g = replay.Graph(edges)
-    handles = ("h1", "h2", "h3") if tier == "thorough" else ("h1", "h2")
-    stats, viol, khits, kgone, samples = replay.cover(g, lambda: UKVAdapter(handles), seed=seed)
-    ev.count(evaluations=stats["steps"], distinct_nontrivial=stats["pairs_exercised"], traces=stats["paths"])
-    ev.set(raw_replay=stats)
-    ev.add_samples([{"layer": "UKVFile", "path": s} for s in samples], 2)
-    if stats["unreached_pairs"] and not viol:
-        rep.note(f"raw layer: {stats['unreached_pairs']} pairs not reached")
-    for v in viol:
-        rep.violation("replay-ukvfile", v, what="; ".join(v["differences"][:3]))
-    rep.note(f"raw layer: {stats}")
+    # (keys, values, handles, replay?, wall-clock budget for the replay)
+    variants = [("KeysQ", "ValsQ", "H2", True, None)] if tier == "quick" else [
+        ("KeysQ", "ValsQ", "H3", True, 120), ("KeysB", "ValsT", "H2", True, 150), ("KeysT", "ValsT", "H2", False, None)]
+    for keys, vals, hs, do_replay_, budget in variants:
+        cfg = raw_cfg(tier, keys=keys, vals=vals, handles=hs)
+        model_check(ev, "MCUKVFile", cfg, role=f"UKVFile invariants + refinement of KVMap ({keys},{vals},{hs})", tag="c02raw",
+                    require_actions=RAW_ACTIONS, timeout=1800)
+        if not do_replay_:
+            continue
+        edges = emit_graph(ev, "MCUKVFile", cfg, role=f"UKVFile edges for replay ({keys},{vals},{hs})", tag="c02emit", timeout=1800)
+        for e in edges:
+            e["obs"] = norm_obs(e["obs"])
+        g = replay.Graph(edges)
+        del edges
+        handles = ("h1", "h2", "h3") if hs == "H3" else ("h1", "h2")
+        stats, viol, khits, kgone, samples = replay.cover(g, lambda: UKVAdapter(handles), seed=seed, budget_s=budget)
+        ev.count(evaluations=stats["steps"], distinct_nontrivial=stats["pairs_exercised"], traces=stats["paths"])
+        ev.cov.setdefault("raw_replay", {})[f"{keys},{vals},{hs}"] = stats
+        ev.add_samples([{"layer": "UKVFile", "path": s} for s in samples], 2)
+        for v in viol:
+            rep.violation("replay-ukvfile", v, what="; ".join(v["differences"][:3]))
+        rep.note(f"raw layer {keys},{vals},{hs}: {stats}")
 
 
 BK_INV = ("NoDuplicateRecord", "KeyLenOK", "ListedIsReadable", "ListedIsPut", "SessionSeesAll", "ClosedWhenIdle")
@@ -65,10 +71,9 @@ BK_ACTIONS = ("Make", "Begin", "CPut", "CGet", "End")
 BUFS = {"BufM1": -1, "Buf0": 0, "BufS": 6, "BufL": 100000}
 
 
-def bk_cfg(tier, buf, ro, dev="DevNone", colls="C2"):
-    big = tier == "thorough"
+def bk_cfg(tier, buf, ro, dev="DevNone", colls="C2", keys="KeysQ", vals="ValsQ"):
     return dict(spec="Spec", constants={
-        "Key": "<- KeysT" if big else "<- KeysQ", "Val": "<- ValsT" if big else "<- ValsQ",
+        "Key": f"<- {keys}", "Val": f"<- {vals}",
         "KeyLen": "<- KLen", "ValLen": "<- VLen", "Coll": f"<- {colls}", "RO": f"<- {ro}", "Buf": f"<- {buf}",
         "Hdr": "<- HdrQ", "NoHdr": '"none"', "MaxRecs": 3, "Deviations": f"<- {dev}"},
         invariants=BK_INV, properties=BK_PROPS, view="View")
@@ -89,25 +94,27 @@ def backend_layer(tier, seed, ev, rep):
     from ..adapters.backend import BackendAdapter
     for dev in ("DevPhantom", "DevQueue", "DevLate"):
         expect_violation("MCBackend", bk_cfg("quick", "BufS", "ROrw", dev), BK_INV, tag="c02dev")
-    configs = [("BufM1", "ROmix"), ("Buf0", "ROrw"), ("BufS", "ROrw"), ("BufL", "ROmix")]
-    colls, cname = (("c1", "c2"), "C2")
-    if tier == "thorough":
-        configs += [("BufMix", "ROmix")]
-    for buf, ro in configs:
-        cn, cl = (cname, colls)
-        if buf == "BufMix":
-            cn, cl = "C3", ("c1", "c2", "c3")
-        cfg = bk_cfg(tier, buf, ro, colls=cn)
+    # (buffer sizes, read-only map, collections, keys, values, wall-clock budget for the replay)
+    if tier == "quick":
+        configs = [("BufM1", "ROmix", "C2", "KeysQ", "ValsQ", None), ("Buf0", "ROrw", "C2", "KeysQ", "ValsQ", None),
+                   ("BufS", "ROrw", "C2", "KeysQ", "ValsQ", None), ("BufL", "ROmix", "C2", "KeysQ", "ValsQ", None)]
+    else:
+        configs = [("BufM1", "ROmix", "C2", "KeysT", "ValsT", 75), ("Buf0", "ROrw", "C2", "KeysT", "ValsT", 75),
+                   ("BufS", "ROmix", "C2", "KeysT", "ValsT", 75), ("BufL", "ROmix", "C2", "KeysT", "ValsT", 75),
+                   ("BufMix", "ROmix", "C3", "KeysQ", "ValsQ", 60)]
+    for buf, ro, cn, keys, vals, budget in configs:
+        cl = ("c1", "c2", "c3") if cn == "C3" else ("c1", "c2")
+        cfg = bk_cfg(tier, buf, ro, colls=cn, keys=keys, vals=vals)
         model_check(ev, "MCBackend", cfg, role=f"Backend invariants ({buf},{ro})", tag="c02bk",
-                    require_actions=BK_ACTIONS)
-        edges = emit_graph(ev, "MCBackend", cfg, role=f"Backend edges ({buf},{ro})", tag="c02bkemit")
+                    require_actions=BK_ACTIONS, timeout=1800)
+        edges = emit_graph(ev, "MCBackend", cfg, role=f"Backend edges ({buf},{ro})", tag="c02bkemit", timeout=1800)
         for e in edges:
             e["obs"] = norm_cobs(e["obs"])
         g = replay.Graph(edges)
         bufmap = {"c1": 6, "c2": -1, "c3": 100000} if buf == "BufMix" else {c: BUFS[buf] for c in cl}
         romap = {c: (ro == "ROmix" and c == "c2") for c in cl}
         stats, viol, khits, kgone, samples = replay.cover(
-            g, lambda: BackendAdapter(cl, ro=romap, buf=bufmap), seed=seed)
+            g, lambda: BackendAdapter(cl, ro=romap, buf=bufmap), seed=seed, budget_s=budget)
         ev.count(evaluations=stats["steps"], distinct_nontrivial=stats["pairs_exercised"], traces=stats["paths"])
         ev.cov.setdefault("backend_replay", {})[f"{buf},{ro}"] = stats
         ev.add_samples([{"layer": f"Collection {buf} {ro}", "path": s} for s in samples], 1)
